@@ -268,6 +268,12 @@ let ref_query c (ans : string list) : (string * verdict) list =
              "rel_saturates", one "saturates" (lazy (rel_saturates dn x.s k)) s;
              "rel_strictly", one "strictly_intersects" (lazy (rel_strictly_intersects dn x.s k)) si ]
        | _ -> raise (Syntax "expected ans rel"))
+  | "relation_with_gen" ->
+      (* subsumes: adding the generator to a generator system of P does not change P *)
+      let g = read_gen c n in
+      let gs = gens_hint x in
+      if not (has_point gs) then cmpb q (lazy (Some false))
+      else cmpb q (lazy (equiv_sys (nat (n + List.length gs + 2)) (sys_of_gens n (gs @ [g])) x.s))
   | "relation_with_cg" ->
       let m = nextz c in let b = nextz c in let a = take_z c n in
       if m = Z0 then raise (Skip "equality congruence") else
